@@ -1,6 +1,7 @@
 package checks
 
 import (
+	"runtime"
 	"strings"
 
 	formula "github.com/aundis/formula"
@@ -23,7 +24,7 @@ func init() {
 		ID:    "C01",
 		Title: "Parsing is total",
 		Rule: "every token sequence up to k lexemes over the full and the class alphabet, every byte string up to n bytes over 21 raw bytes (invalid UTF-8, open literals, stray bytes), and a fixed family of pathological generators at every size 1..64 and 2^k-1,2^k,2^k+1 up to 64 KiB; each is one call of ParseSourceCode judged for: no panic, error xor complete tree, input consumed; " +
-			"under the instrumented build additionally the deterministic step count (function entries + loop iterations) must stay below 2000*len+20000; distinct = distinct outcome classes (error text class or canonical tree)",
+			"under the instrumented build additionally the deterministic step count (function entries + loop iterations) must stay below 2000*len+20000, and for inputs of 4 KiB and more the allocation volume must stay below 4000*len + 4 MiB; distinct = distinct outcome classes (error text class or canonical tree)",
 		TrustedBase: []string{"checks/common.go implTree (completeness walk over the exported node types)", "cmd/vinstr (step instrumentation, overlay build)"},
 		Assumptions: []string{"'time proportional to length' is judged on instrumented step counts, not on wall-clock time; cost inside library calls is not counted"},
 		Run:         runC01,
@@ -50,8 +51,23 @@ func isTrivia(b []byte) bool {
 
 func judgeC01(src []byte) *eng.Fail {
 	resetSteps()
+	big := len(src) >= 4096
+	var m0, m1 runtime.MemStats
+	if big {
+		runtime.ReadMemStats(&m0)
+	}
 	o := safeParse(src)
 	st := steps()
+	if big {
+		// work hidden from the step counter (copying inside library calls) still shows as
+		// allocation volume, which is deterministic: measured <= 130 bytes per input byte
+		runtime.ReadMemStats(&m1)
+		alloc := int64(m1.TotalAlloc - m0.TotalAlloc)
+		noteMax("alloc_bytes_per_input_byte", alloc/int64(len(src)))
+		if alloc > 4000*int64(len(src))+(4<<20) {
+			return eng.F("C01/superlinear-allocation", "parse of %d bytes allocated %d bytes (> 4000*len + 4 MiB): work is not proportional to the input length", len(src), alloc)
+		}
+	}
 	if stepBudgetHit() {
 		return eng.F("C01/step-budget", "parse did not finish within the step budget (%d steps for %d bytes): non-termination", st, len(src))
 	}
